@@ -12,6 +12,13 @@ def load_prop(pid):
     with open(path) as f: exec(compile(f.read(), path, 'exec'), g)
     return g['PROP']
 
+def name_matches(name, patterns):
+    for p in patterns:
+        if p.endswith('*'):
+            if name.startswith(p[:-1]): return True
+        elif name == p: return True
+    return False
+
 def load_findings():
     p = os.path.join(VERIF, 'known_findings.json')
     if not os.path.exists(p): return []
@@ -154,7 +161,8 @@ def decide(pid, prop, recs, problems, units):
     xassert_fail = [r for r in recs if r['kind'] == 'XASSERT' and r['status'] != 'SUCCESS']
     # every obligation named by the property must have been generated at least once
     for name in prop.get('obligations', []):
-        if name not in named_seen and not any(f['name'] == name for f in failures):
+        seen_all = set(named_seen) | set(f['name'] for f in failures)
+        if not any(name_matches(n, [name]) for n in seen_all):
             errors.append('named obligation %s was not generated by any run' % name)
     violations = []; knowns = []
     for f in failures:
